@@ -135,6 +135,16 @@ func (fc *FnCtx) doCall(fr *Frame, st *State, instr ssa.Instruction, c *ssa.Call
 	} else if _, isB := c.Value.(*ssa.Builtin); !isB {
 		if fs := fc.fieldSpecFor(c.Value); fs != nil {
 			key0 = "call:" + shortKey(fs.Target) // calls through a func-typed field: keyed by the field name
+		} else if u, ok := c.Value.(*ssa.UnOp); ok {
+			// call through a local / captured function variable without a contract: keyed by the variable
+			switch x := u.X.(type) {
+			case *ssa.Alloc:
+				if x.Comment != "" {
+					key0 = "call:" + x.Comment
+				}
+			case *ssa.FreeVar:
+				key0 = "call:" + x.Name()
+			}
 		}
 	}
 	if key0 != "" {
@@ -208,7 +218,15 @@ func (fc *FnCtx) doCallInner(fr *Frame, st *State, instr ssa.Instruction, c *ssa
 		}
 		fc.havocCallees["<func value "+c.Value.Name()+" in "+fr.fn.Name()+">"] = true
 		fc.havocPointees(fr, st, c, args)
-		return havocRes("fv")
+		if isUserCallback(c.Value) && fc.topFrame != nil && fnRecovers(fc.topFrame.fn) {
+			// code written to contain panics of a callback: the callback may indeed panic
+			fc.forkPanic(fr, st, "the callback "+c.Value.Name()+" panics")
+		}
+		res := havocRes("fv")
+		if et, ok := res.(Term); ok && et.Sort == SErr && isUserCallback(c.Value) {
+			fc.assumeForeignError(st, et)
+		}
+		return res
 	}
 	mname := calleeModelName(callee)
 	// recv for methods is args[0]
@@ -393,6 +411,13 @@ func (fc *FnCtx) fieldSpecFor(v ssa.Value) *FuncSpec {
 				return fs
 			}
 			// range variable over a slice parameter: contract keyed by parameter name
+		}
+		if fv, ok := x.X.(*ssa.FreeVar); ok {
+			// captured function variable (closures capture by reference): keyed by closure + variable name
+			key := funcDisplayName(fv.Parent()) + "." + fv.Name()
+			if fs, ok := fc.eng.fields[key]; ok {
+				return fs
+			}
 		}
 	case *ssa.Parameter:
 		key := funcDisplayName(x.Parent()) + "." + x.Name()
